@@ -1095,3 +1095,878 @@ def _first_text_diff(a, b):
         if x != y:
             return "line %d: %s  |vs|  %s" % (i + 1, short(x.strip(), 160), short(y.strip(), 160))
     return "line counts %d vs %d; first extra: %s" % (len(la), len(lb), short((la[len(lb):] or lb[len(la):] or [""])[0].strip(), 160))
+
+
+# ---------------------------------------------------------------------------
+# (2) GLIF
+
+
+class _Obj:
+    pass
+
+
+class RecPen:
+    """Recording point pen: plain tuples of what the reader reports."""
+
+    def __init__(self):
+        self.rec = []
+
+    def beginPath(self, identifier=None, **kwargs):
+        self.rec.append(["beginPath", identifier])
+
+    def endPath(self):
+        self.rec.append(["endPath"])
+
+    def addPoint(self, pt, segmentType=None, smooth=False, name=None, identifier=None, **kwargs):
+        self.rec.append(["addPoint", list(pt), segmentType, smooth, name, identifier])
+
+    def addComponent(self, baseGlyphName, transformation, identifier=None, **kwargs):
+        self.rec.append(["addComponent", baseGlyphName, list(transformation), identifier])
+
+
+def glyph_object(g):
+    o = _Obj()
+    for k in ("width", "height", "note", "image"):
+        if g.get(k) is not None:
+            setattr(o, k, dict(g[k]) if isinstance(g[k], dict) else g[k])
+    if g["unicodes"]:
+        o.unicodes = list(g["unicodes"])
+    if g["lib"] is not None:
+        o.lib = pl_build(g["lib"])
+    if g["guidelines"]:
+        o.guidelines = [dict(x) for x in g["guidelines"]]
+    if g["anchors"]:
+        o.anchors = [{k: v for k, v in a.items() if v is not None} for a in g["anchors"]]
+    return o
+
+
+def glyph_draw(g):
+    fmt2 = g["format"] == 2
+
+    def draw(pen):
+        for el in g["outline"]:
+            if el["t"] == "contour":
+                if fmt2:
+                    pen.beginPath(identifier=el["identifier"])
+                else:
+                    pen.beginPath()
+                for p in el["points"]:
+                    kw = {"identifier": p["identifier"]} if fmt2 else {}
+                    pen.addPoint((p["x"], p["y"]), segmentType=p["type"], smooth=p["smooth"], name=p["name"], **kw)
+                pen.endPath()
+            else:
+                kw = {"identifier": el["identifier"]} if fmt2 else {}
+                pen.addComponent(el["base"], tuple(el["transformation"]), **kw)
+
+    return draw
+
+
+def norm_note(note):
+    return "\n".join(line.strip() for line in note.strip().split("\n") if line.strip())
+
+
+_TRANSFORM_DEFAULTS = [("xScale", 1), ("xyScale", 0), ("yxScale", 0), ("yScale", 1), ("xOffset", 0), ("yOffset", 0)]
+
+
+def glyph_expected(g):
+    """(attributes a blank object must carry after reading, recorded pen calls)."""
+    fmt2 = g["format"] == 2
+    e = {"name": g["name"]}
+    w = g["width"] if g["width"] else 0
+    h = g["height"] if g["height"] else 0
+    if w != 0 or h != 0:
+        e["width"] = Strict(w if w != 0 else 0)
+        e["height"] = Strict(h if h != 0 else 0)
+    un = []
+    for u in g["unicodes"]:
+        if u not in un:
+            un.append(u)
+    if un:
+        e["unicodes"] = un
+    if g["note"]:
+        e["note"] = norm_note(g["note"])
+    if g["lib"]:
+        e["lib"] = Strict(pl_expected(g["lib"]))
+    if fmt2:
+        if g["image"] is not None:
+            img = {"fileName": g["image"]["fileName"]}
+            for k, dflt in _TRANSFORM_DEFAULTS:
+                img[k] = g["image"].get(k, dflt)
+            if "color" in g["image"]:
+                img["color"] = g["image"]["color"]
+            e["image"] = img
+        if g["guidelines"]:
+            e["guidelines"] = Strict([dict(x) for x in g["guidelines"]])
+        if g["anchors"]:
+            e["anchors"] = Strict([{k: v for k, v in a.items() if v is not None} for a in g["anchors"]])
+    elif g["anchors"]:
+        e["anchors"] = Strict([{"x": a["x"], "y": a["y"], "name": a["name"]} for a in g["anchors"]])
+    rec = []
+    for el in g["outline"]:
+        if el["t"] == "contour":
+            rec.append(["beginPath", el["identifier"] if fmt2 else None])
+            for p in el["points"]:
+                rec.append(["addPoint", Strict([p["x"], p["y"]]), p["type"], bool(p["smooth"]), p["name"], p["identifier"] if fmt2 else None])
+            rec.append(["endPath"])
+        else:
+            tr = [v if v != dflt else dflt for v, (_, dflt) in zip(el["transformation"], _TRANSFORM_DEFAULTS)]
+            rec.append(["addComponent", el["base"], tr, el["identifier"] if fmt2 else None])
+    return e, rec
+
+
+def glyph_features(g):
+    f = set()
+    types = set()
+    for el in g["outline"]:
+        if el["t"] == "component":
+            f.add("component")
+            if list(el["transformation"]) != [1, 0, 0, 1, 0, 0]:
+                f.add("component-transform")
+        else:
+            f.add("contour")
+            pts = el["points"]
+            if not pts:
+                f.add("empty-contour")
+            elif pts[0]["type"] == "move":
+                f.add("open-contour")
+            elif all(p["type"] is None for p in pts):
+                f.add("offcurve-only-contour")
+            elif pts[0]["type"] is None or pts[-1]["type"] is None:
+                f.add("wraparound-offcurves")
+            for p in pts:
+                types.add(p["type"] or "offcurve")
+                if p["smooth"]:
+                    f.add("smooth")
+                if p["name"] is not None:
+                    f.add("point-name")
+                if p["identifier"]:
+                    f.add("identifier")
+        if el["identifier"]:
+            f.add("identifier")
+    f |= {"pt:" + t for t in types}
+    for k in ("anchors", "guidelines", "image", "note", "lib", "unicodes"):
+        if g[k]:
+            f.add(k)
+    if any(a.get("identifier") for a in g["anchors"]) or any(x.get("identifier") for x in g["guidelines"]):
+        f.add("identifier")
+    if g["width"] or g["height"]:
+        f.add("advance")
+    return f
+
+
+def _read_glyph(r, stage, reader, *args, **kw):
+    obj, pen = _Obj(), RecPen()
+    ok, _ = r.call(stage, reader, *args, glyphObject=obj, pointPen=pen, **kw) if False else r.call(stage, lambda: reader(*args, obj, pen, **kw))
+    return ok, obj, pen
+
+
+def _compare_glyph(r, what, g, obj, pen, text=None):
+    e, rec = glyph_expected(g)
+    df = diff(e, dict(vars(obj)))
+    if df:
+        r.fail(what + ":attributes", "%s%s" % (df, " | glif %s" % short(text, 300) if text else ""))
+    df = diff(rec, pen.rec)
+    if df:
+        r.fail(what + ":outline", "%s%s" % (df, " | glif %s" % short(text, 300) if text else ""))
+
+
+def check_glif(case, r):
+    import xml.etree.ElementTree as SET
+
+    from fontTools.ufoLib.glifLib import readGlyphFromString, writeGlyphToString
+
+    g = case["glyph"]
+    validate = case["validate"]
+    ok, text = r.call("write", writeGlyphToString, g["name"], glyph_object(g), glyph_draw(g), formatVersion=g["format"], validate=validate)
+    if ok:
+        if not isinstance(text, str):
+            r.fail("write-type", type(text).__name__)
+            return
+        try:
+            root = SET.fromstring(text.encode("utf-8"))
+            if root.tag != "glyph" or root.get("name") != g["name"] or root.get("format") != str(g["format"]):
+                r.fail("glif-header", "name %r format %r in %s" % (root.get("name"), root.get("format"), short(text, 200)))
+        except SET.ParseError as e:
+            r.fail("glif-not-wellformed", "%s | %s" % (e, short(text, 200)))
+        ok, obj, pen = _read_glyph(r, "read", readGlyphFromString, text, validate=True)
+        if ok:
+            _compare_glyph(r, "read(write)", g, obj, pen, text)
+            # restricting the accepted versions to the written one must not matter
+            ok2, obj2, pen2 = _read_glyph(r, "read-formatVersions", readGlyphFromString, text, formatVersions=[g["format"]])
+            if ok2 and (diff(dict(vars(obj)), dict(vars(obj2)), strict=True) or pen.rec != pen2.rec):
+                r.fail("formatVersions-changes-result", "format %d" % g["format"])
+            # second write: from what was read
+            def redraw(p):
+                for c in pen.rec:
+                    if c[0] == "beginPath":
+                        p.beginPath(identifier=c[1]) if g["format"] == 2 else p.beginPath()
+                    elif c[0] == "endPath":
+                        p.endPath()
+                    elif c[0] == "addPoint":
+                        kw = {"identifier": c[5]} if g["format"] == 2 else {}
+                        p.addPoint(tuple(c[1]), segmentType=c[2], smooth=c[3], name=c[4], **kw)
+                    else:
+                        kw = {"identifier": c[3]} if g["format"] == 2 else {}
+                        p.addComponent(c[1], tuple(c[2]), **kw)
+
+            ok3, text2 = r.call("write(reread)", writeGlyphToString, g["name"], obj, redraw, formatVersion=g["format"], validate=validate)
+            # (the reader strips every note line, the writer only the whole note: an indented note
+            # is normalised by the first read, which is what the format documents)
+            if ok3 and text2 != text and (not g["note"] or norm_note(g["note"]) == g["note"]):
+                r.fail("second-write-differs", _first_text_diff(text, text2))
+    f = glyph_features(g)
+    labels = ["glif:format=%d" % g["format"], "glif:validate=%s" % validate] + ["glif:%s" % x for x in sorted(f)]
+    r.acc.case(("glif", case), nontrivial=len(f) >= 3, labels=labels, sample=case if len(f) >= 8 else None)
+
+
+def _fs_ok(name, suffix=".glif"):
+    """The scratch file system accepts at most 255 bytes per name."""
+    return len(ref_filter(name, UFO_ILLEGAL, "").encode("utf-8", "surrogatepass")) + len(suffix) + 15 <= 255 or name.isascii()
+
+
+def check_glyphset(case, r):
+    import plistlib as S
+
+    from fontTools.ufoLib.glifLib import GlyphSet
+
+    ufo = case["ufo"]
+    glyphs = [g for g in case["glyphs"] if not known_overflow(g["name"], UFO_ILLEGAL, UFO_RESERVED, "", ".glif")]
+    with scratch_dir("c19gs") as tmp:
+        d = os.path.join(tmp, "glyphs")
+        os.mkdir(d)
+        ok, gs = r.call("GlyphSet", GlyphSet, d, ufoFormatVersion=ufo)
+        if not ok:
+            return
+        for g in glyphs:
+            r.call("writeGlyph", gs.writeGlyph, g["name"], glyph_object(g), glyph_draw(g), formatVersion=g["format"])
+        if r.failed:
+            return
+        names1 = dict(gs.contents)
+        # writing an already-written glyph keeps its file name
+        for g in glyphs[:2]:
+            r.call("writeGlyph-again", gs.writeGlyph, g["name"], glyph_object(g), glyph_draw(g), formatVersion=g["format"])
+        if dict(gs.contents) != names1:
+            r.fail("file-name-not-stable", "%r vs %r" % (names1, dict(gs.contents)))
+        ok, _ = r.call("writeContents", gs.writeContents)
+        r.call("close", gs.close)
+        if not ok:
+            return
+        with open(os.path.join(d, "contents.plist"), "rb") as f:
+            contents = S.load(f)
+        if set(contents) != {g["name"] for g in glyphs} or list(contents) != sorted(contents):
+            r.fail("contents.plist", "keys %r, glyphs written %r" % (list(contents), [g["name"] for g in glyphs]))
+        seen = set()
+        for gn, fn in contents.items():
+            for what, detail in name_violations(fn, UFO_ILLEGAL, UFO_RESERVED, "", ".glif", seen):
+                r.fail("glyph-file:" + what, "%r -> %s" % (gn, detail))
+            seen.add(fn.lower())
+        on_disk = sorted(os.listdir(d))
+        if on_disk != sorted(list(contents.values()) + ["contents.plist"]):
+            r.fail("files-on-disk", "%r vs contents %r" % (on_disk, sorted(contents.values())))
+        ok, gs2 = r.call("GlyphSet-reopen", GlyphSet, d, ufoFormatVersion=ufo, expectContentsFile=True)
+        if not ok:
+            return
+        if sorted(gs2.keys()) != sorted(g["name"] for g in glyphs):
+            r.fail("keys", "%r" % sorted(gs2.keys()))
+        for g in glyphs:
+            if g["name"] not in gs2:
+                continue
+            ok, obj, pen = _read_glyph(r, "readGlyph", gs2.readGlyph, g["name"])
+            if ok:
+                _compare_glyph(r, "glyphset", g, obj, pen)
+        ok, un = r.call("getUnicodes", gs2.getUnicodes)
+        if ok:
+            exp = {g["name"]: glyph_expected(g)[0].get("unicodes", []) for g in glyphs}
+            df = diff(exp, un)
+            if df:
+                r.fail("getUnicodes", df)
+        ok, comps = r.call("getComponentReferences", gs2.getComponentReferences)
+        if ok:
+            exp = {g["name"]: [el["base"] for el in g["outline"] if el["t"] == "component"] for g in glyphs}
+            df = diff(exp, comps)
+            if df:
+                r.fail("getComponentReferences", df)
+        ok, imgs = r.call("getImageReferences", gs2.getImageReferences)
+        if ok:
+            exp = {g["name"]: (g["image"]["fileName"] if g["format"] == 2 and g["image"] else None) for g in glyphs}
+            df = diff(exp, imgs)
+            if df:
+                r.fail("getImageReferences", df)
+        r.call("close2", gs2.close)
+    case_clash = len({g["name"].lower() for g in glyphs}) < len(glyphs)
+    r.acc.case(("glyphset", case), nontrivial=len(glyphs) >= 2, labels=["glyphset:ufo%d" % ufo, "glyphset:n=%d" % len(glyphs)] + ["glyphset:names-differ-by-case"] * case_clash)
+
+
+# ---------------------------------------------------------------------------
+# (3) UFOWriter / UFOReader
+
+
+def _info_object(info):
+    o = _Obj()
+    for k, v in info.items():
+        setattr(o, k, pl_build(v))
+    return o
+
+
+def _walk_files(root):
+    out = []
+    for dp, dn, fn in os.walk(root):
+        for n in dn + fn:
+            out.append(os.path.join(dp, n))
+    return out
+
+
+def check_ufo(case, r):
+    import plistlib as S
+    import tempfile
+
+    from fontTools.misc import filesystem as fs
+    from fontTools.ufoLib import UFOReader, UFOWriter
+
+    structure = case["structure"]
+    layers = []
+    for l in case["layers"]:
+        if known_overflow(l["name"], UFO_ILLEGAL, UFO_RESERVED, "glyphs.", ""):
+            r.acc.exclude("names:known-finding reserved part prefixed after 255 clip")
+            continue
+        layers.append(dict(l, glyphs=[g for g in l["glyphs"] if not known_overflow(g["name"], UFO_ILLEGAL, UFO_RESERVED, "", ".glif")]))
+    names = [l["name"] for l in layers]
+    order = None
+    if case["layerOrder"] is not None:
+        order = [case["layers"][i]["name"] for i in case["layerOrder"] if case["layers"][i]["name"] in names]
+    kerning = {(a, b): v for a, b, v in case["kerning"]}
+    with scratch_dir("c19ufo") as tmp:
+        old_tmp = tempfile.tempdir
+        tempfile.tempdir = os.path.join(tmp, "tmp")
+        os.mkdir(tempfile.tempdir)
+        try:
+            path = os.path.join(tmp, "out", "Font-Regular.ufoz" if structure == "zip" else "Font-Regular.ufo")
+            os.mkdir(os.path.join(tmp, "out"))
+            target = path
+            fsobj = None
+            if structure == "fs":
+                fsobj = fs.osfs.OSFS(path, create=True)
+                target = fsobj
+            kw = {"structure": "zip"} if structure == "zip" else {}
+            ok, w = r.call("UFOWriter", UFOWriter, target, **kw)
+            if not ok:
+                return
+            try:
+                r.call("writeInfo", w.writeInfo, _info_object(case["info"]))
+                r.call("writeGroups", w.writeGroups, {k: list(v) for k, v in case["groups"].items()})
+                r.call("writeKerning", w.writeKerning, kerning)
+                r.call("writeLib", w.writeLib, pl_build(case["lib"]))
+                r.call("writeFeatures", w.writeFeatures, case["features"])
+                for l in layers:
+                    ok, gs = r.call("getGlyphSet", w.getGlyphSet, layerName=l["name"], defaultLayer=l["default"])
+                    if not ok:
+                        continue
+                    for g in l["glyphs"]:
+                        r.call("writeGlyph", gs.writeGlyph, g["name"], glyph_object(g), glyph_draw(g), formatVersion=g["format"])
+                    r.call("writeContents", gs.writeContents)
+                    li = _Obj()
+                    li.color = l["color"]
+                    li.lib = pl_build(l["lib"])
+                    r.call("writeLayerInfo", gs.writeLayerInfo, li)
+                r.call("writeLayerContents", w.writeLayerContents, order)
+                for n, data in case["data"].items():
+                    r.call("writeData", w.writeData, n, data)
+                for n, data in case["images"].items():
+                    r.call("writeImage", w.writeImage, n, data)
+                layer_dirs = dict(w.layerContents)
+            finally:
+                r.call("close", w.close)
+                if fsobj is not None:
+                    fsobj.close()
+            if r.failed:
+                return
+            # everything written lies inside the requested UFO
+            top = sorted(os.listdir(os.path.join(tmp, "out")))
+            if top != [os.path.basename(path)]:
+                r.fail("files-outside-ufo", "directory holding the UFO contains %r" % top)
+            stray = [p for p in _walk_files(tmp) if not (p.startswith(path) or p.startswith(os.path.join(tmp, "tmp")) or p == os.path.join(tmp, "out"))]
+            if stray:
+                r.fail("files-outside-ufo", repr(stray[:4]))
+            if any(os.path.islink(p) for p in _walk_files(os.path.join(tmp, "out"))):
+                r.fail("symlink-created", "")
+            if structure != "zip":
+                # layer directory names: legal, unique ignoring case, default is 'glyphs'
+                with open(os.path.join(path, "layercontents.plist"), "rb") as f:
+                    lc = S.load(f)
+                if [x[0] for x in lc] != (order if order is not None else names):
+                    r.fail("layercontents-order", "%r vs %r" % ([x[0] for x in lc], order if order is not None else names))
+                seen = set()
+                for ln, dn in lc:
+                    dflt = [l for l in layers if l["name"] == ln and l["default"]]
+                    if dflt:
+                        if dn != "glyphs":
+                            r.fail("default-layer-dir", "%r -> %r" % (ln, dn))
+                    else:
+                        for what, detail in name_violations(dn, UFO_ILLEGAL, UFO_RESERVED, "glyphs.", "", seen):
+                            r.fail("layer-dir:" + what, "%s -> %s" % (short(repr(ln), 60), detail))
+                    if not os.path.isdir(os.path.join(path, dn)):
+                        r.fail("layer-dir-missing", repr(dn))
+                    seen.add(dn.lower())
+            # ---- read back
+            rfs = None
+            rtarget = path
+            if structure == "fs":
+                rfs = fs.osfs.OSFS(path)
+                rtarget = rfs
+            ok, rd = r.call("UFOReader", UFOReader, rtarget)
+            if not ok:
+                return
+            try:
+                if tuple(rd.formatVersionTuple) != (3, 0):
+                    r.fail("formatVersion", repr(rd.formatVersionTuple))
+                io = _Obj()
+                ok, _ = r.call("readInfo", rd.readInfo, io)
+                if ok:
+                    df = diff(Strict(pl_expected(case["info"])), dict(vars(io)))
+                    if df:
+                        r.fail("info", df)
+                ok, got = r.call("readGroups", rd.readGroups)
+                if ok:
+                    df = diff(Strict({k: list(v) for k, v in case["groups"].items()}), got)
+                    if df:
+                        r.fail("groups", df)
+                ok, got = r.call("readKerning", rd.readKerning)
+                if ok:
+                    df = diff(Strict({"%r" % (k,): v for k, v in kerning.items()}), {"%r" % (k,): v for k, v in got.items()})
+                    if df:
+                        r.fail("kerning", df)
+                ok, got = r.call("readLib", rd.readLib)
+                if ok:
+                    df = diff(Strict(pl_expected(case["lib"])), got)
+                    if df:
+                        r.fail("lib", df)
+                ok, got = r.call("readFeatures", rd.readFeatures)
+                if ok and got != case["features"]:
+                    r.fail("features", "%s vs %s" % (short(repr(got), 120), short(repr(case["features"]), 120)))
+                ok, got = r.call("getLayerNames", rd.getLayerNames)
+                if ok and list(got) != (order if order is not None else names):
+                    r.fail("layer-names", "%r vs %r" % (got, order if order is not None else names))
+                ok, got = r.call("getDefaultLayerName", rd.getDefaultLayerName)
+                if ok and got != [l["name"] for l in layers if l["default"]][0]:
+                    r.fail("default-layer-name", repr(got))
+                for l in layers:
+                    ok, gs = r.call("reader.getGlyphSet", rd.getGlyphSet, l["name"])
+                    if not ok:
+                        continue
+                    if sorted(gs.keys()) != sorted(g["name"] for g in l["glyphs"]):
+                        r.fail("layer-glyphs", "%s: %r" % (short(repr(l["name"]), 40), sorted(gs.keys())))
+                        continue
+                    for g in l["glyphs"]:
+                        ok, obj, pen = _read_glyph(r, "readGlyph", gs.readGlyph, g["name"])
+                        if ok:
+                            _compare_glyph(r, "ufo-glyph", g, obj, pen)
+                    li = _Obj()
+                    ok, _ = r.call("readLayerInfo", gs.readLayerInfo, li)
+                    if ok:
+                        exp = {}
+                        if l["color"] is not None:
+                            exp["color"] = l["color"]
+                        if l["lib"]:
+                            exp["lib"] = pl_expected(l["lib"])
+                        df = diff(Strict(exp), dict(vars(li)))
+                        if df:
+                            r.fail("layerinfo", df)
+                ok, got = r.call("getDataDirectoryListing", rd.getDataDirectoryListing)
+                if ok and sorted(got) != sorted(case["data"]):
+                    r.fail("data-listing", "%r vs %r" % (sorted(got), sorted(case["data"])))
+                for n, data in case["data"].items():
+                    ok, got = r.call("readData", rd.readData, n)
+                    if ok and got != data:
+                        r.fail("data", "%r" % n)
+                ok, got = r.call("getImageDirectoryListing", rd.getImageDirectoryListing)
+                if ok and sorted(got) != sorted(case["images"]):
+                    r.fail("image-listing", "%r vs %r" % (sorted(got), sorted(case["images"])))
+                for n, data in case["images"].items():
+                    ok, got = r.call("readImage", rd.readImage, n)
+                    if ok and got != data:
+                        r.fail("image", "%r" % n)
+            finally:
+                r.call("reader.close", rd.close)
+                if rfs is not None:
+                    rfs.close()
+        finally:
+            tempfile.tempdir = old_tmp
+    feats = [k for k in ("info", "groups", "kerning", "lib", "features", "data", "images") if case[k]]
+    if len(layers) > 1:
+        feats.append("layers>1")
+    if order is not None and order != names:
+        feats.append("layer-order")
+    if any(l["glyphs"] for l in layers):
+        feats.append("glyphs")
+    if any(l["color"] or l["lib"] for l in layers):
+        feats.append("layerinfo")
+    if len({ref_filter(n, UFO_ILLEGAL, "glyphs.").lower()[:248] for n in names}) < len(names):
+        feats.append("layer-dir-clash")
+    r.acc.case(("ufo", case), nontrivial=len(feats) >= 3, labels=["ufo:%s" % f for f in feats] + ["ufo:structure=%s" % structure], sample=None)
+    r.acc.label("ufo:info-attributes", len(case["info"]))
+
+
+_FLOAT_TO_INT = set(
+    "openTypeHeadLowestRecPPEM openTypeHheaAscender openTypeHheaDescender openTypeHheaLineGap openTypeHheaCaretOffset openTypeOS2TypoAscender "
+    "openTypeOS2TypoDescender openTypeOS2TypoLineGap openTypeOS2WinAscent openTypeOS2WinDescent openTypeOS2SubscriptXSize openTypeOS2SubscriptYSize "
+    "openTypeOS2SubscriptXOffset openTypeOS2SubscriptYOffset openTypeOS2SuperscriptXSize openTypeOS2SuperscriptYSize openTypeOS2SuperscriptXOffset "
+    "openTypeOS2SuperscriptYOffset openTypeOS2StrikeoutSize openTypeOS2StrikeoutPosition openTypeVheaVertTypoAscender openTypeVheaVertTypoDescender "
+    "openTypeVheaVertTypoLineGap openTypeVheaCaretOffset".split()
+)
+_NONNEG = {"versionMinor", "openTypeHeadLowestRecPPEM", "openTypeOS2WinAscent", "openTypeOS2WinDescent"}
+
+
+def upconv_expected_info(info):
+    """UFO 1/2 -> 3 font info conversion as documented by the UFO 3 specification:
+    the listed metrics become integers, the listed values become non-negative."""
+    out = {}
+    for a, v in info.items():
+        if a in _FLOAT_TO_INT:
+            v = Strict(int(math.floor(v + 0.5)))
+            if a in _NONNEG:
+                v = Strict(abs(v.value))
+        elif a in _NONNEG:
+            v = Strict(abs(int(v)))
+        elif a == "unitsPerEm":
+            v = abs(v)
+        out[a] = v
+    return out
+
+
+def upconv_expected_kerning(groups, kerning):
+    r1 = {g: "public.kern1." + g[len("@MMK_L_"):] for g in groups if g.startswith("@MMK_L_")}
+    r2 = {g: "public.kern2." + g[len("@MMK_R_"):] for g in groups if g.startswith("@MMK_R_")}
+    for a, b, v in kerning:
+        if a in groups and a not in r1:
+            r1[a] = "public.kern1." + a
+        if b in groups and b not in r2:
+            r2[b] = "public.kern2." + b
+    ng = {k: list(v) for k, v in groups.items()}
+    for old, new in list(r1.items()) + list(r2.items()):
+        ng[new] = list(groups[old])
+    nk = {(r1.get(a, a), r2.get(b, b)): v for a, b, v in kerning}
+    return ng, nk, {"side1": r1, "side2": r2}
+
+
+def check_upconv(case, r):
+    from fontTools.ufoLib import UFOReader, UFOWriter
+
+    ver = case["version"]
+    kerning = {(a, b): v for a, b, v in case["kerning"]}
+    with scratch_dir("c19up") as tmp:
+        path = os.path.join(tmp, "Old.ufo")
+        ok, w = r.call("UFOWriter", UFOWriter, path, formatVersion=ver)
+        if not ok:
+            return
+        try:
+            r.call("writeInfo", w.writeInfo, _info_object(case["info"]))
+            r.call("writeGroups", w.writeGroups, {k: list(v) for k, v in case["groups"].items()})
+            r.call("writeKerning", w.writeKerning, kerning)
+            r.call("writeLib", w.writeLib, pl_build(case["lib"]))
+            if ver == 2:
+                r.call("writeFeatures", w.writeFeatures, case["features"])
+            ok, gs = r.call("getGlyphSet", w.getGlyphSet)
+            if ok:
+                for gn in case["glyphs"]:
+                    o = _Obj()
+                    o.width = 500
+                    r.call("writeGlyph", gs.writeGlyph, gn, o, None)
+                r.call("writeContents", gs.writeContents)
+            r.call("writeLayerContents", w.writeLayerContents)
+        finally:
+            r.call("close", w.close)
+        if r.failed:
+            return
+        if os.path.exists(os.path.join(path, "layercontents.plist")):
+            r.fail("layercontents-in-old-ufo", "UFO %d" % ver)
+        ok, rd = r.call("UFOReader", UFOReader, path)
+        if not ok:
+            return
+        try:
+            if tuple(rd.formatVersionTuple) != (ver, 0):
+                r.fail("formatVersion", repr(rd.formatVersionTuple))
+            io = _Obj()
+            ok, _ = r.call("readInfo", rd.readInfo, io)
+            if ok:
+                df = diff(upconv_expected_info(case["info"]), dict(vars(io)))
+                if df:
+                    r.fail("info-upconversion", df)
+            eg, ek, emaps = upconv_expected_kerning(case["groups"], case["kerning"])
+            ok, got = r.call("readGroups", rd.readGroups)
+            if ok:
+                df = diff(eg, got)
+                if df:
+                    r.fail("groups-upconversion", df)
+            ok, got = r.call("readKerning", rd.readKerning)
+            if ok:
+                df = diff(Strict({"%r" % (k,): v for k, v in ek.items()}), {"%r" % (k,): v for k, v in got.items()})
+                if df:
+                    r.fail("kerning-upconversion", df)
+            ok, got = r.call("getKerningGroupConversionRenameMaps", rd.getKerningGroupConversionRenameMaps)
+            if ok:
+                df = diff(emaps, got)
+                if df:
+                    r.fail("rename-maps", df)
+            ok, got = r.call("readLib", rd.readLib)
+            if ok:
+                df = diff(Strict(pl_expected(case["lib"])), got)
+                if df:
+                    r.fail("lib", df)
+            ok, got = r.call("readFeatures", rd.readFeatures)
+            if ok and got != case["features"]:
+                r.fail("features", short(repr(got), 120))
+            ok, got = r.call("getLayerNames", rd.getLayerNames)
+            if ok and list(got) != ["public.default"]:
+                r.fail("layer-names", repr(got))
+            ok, gs = r.call("reader.getGlyphSet", rd.getGlyphSet)
+            if ok and sorted(gs.keys()) != sorted(case["glyphs"]):
+                r.fail("glyphs", repr(sorted(gs.keys())))
+        finally:
+            r.call("reader.close", rd.close)
+    conv = [a for a, v in case["info"].items() if (a in _FLOAT_TO_INT and isinstance(v, float)) or (a in _NONNEG | {"unitsPerEm"} and v < 0)]
+    renamed = any(g.startswith("@MMK_") for g in case["groups"]) or any(a in case["groups"] or b in case["groups"] for a, b, _ in case["kerning"])
+    r.acc.case(
+        ("upconv", case),
+        nontrivial=bool(conv or renamed),
+        labels=["upconv:ufo%d" % ver] + ["upconv:info-value-converted"] * bool(conv) + ["upconv:groups-renamed"] * renamed + ["upconv:kerning"] * bool(case["kerning"]),
+    )
+
+
+# ---------------------------------------------------------------------------
+# (5b) GlyphSet histories
+
+
+def check_gsops(case, r):
+    import plistlib as S
+
+    from fontTools.ufoLib.glifLib import GlyphSet
+
+    model = {}
+    n_clash = n_del = n_reopen = 0
+    with scratch_dir("c19ops") as tmp:
+        d = os.path.join(tmp, "glyphs")
+        os.mkdir(d)
+        ok, gs = r.call("GlyphSet", GlyphSet, d)
+        if not ok:
+            return
+        for step, (op, name) in enumerate(case["ops"]):
+            if op == "write":
+                if name == "" or name in model:
+                    continue
+                if known_overflow(name, UFO_ILLEGAL, UFO_RESERVED, "", ".glif"):
+                    r.acc.exclude("names:known-finding reserved part prefixed after 255 clip")
+                    continue
+                existing = {f.lower() for f in model.values()}
+                ref, clashed = ref_file_name(name, existing, UFO_ILLEGAL, UFO_RESERVED, "", ".glif")
+                try:
+                    too_long = len(ref.encode("utf-8")) > 255 or any(0xD800 <= ord(c) <= 0xDFFF for c in name)
+                except UnicodeEncodeError:
+                    too_long = True
+                if too_long or any(ord(c) < 32 for c in name):
+                    r.acc.exclude("gsops:name not storable (file system byte limit / not XML text)")
+                    continue
+                o = _Obj()
+                o.width = step + 1
+                ok, _ = r.call("writeGlyph", gs.writeGlyph, name, o, None)
+                if not ok:
+                    continue
+                fn = gs.contents.get(name)
+                if fn is None:
+                    r.fail("not-in-contents", short(repr(name), 60))
+                    continue
+                for what, detail in name_violations(fn, UFO_ILLEGAL, UFO_RESERVED, "", ".glif", existing):
+                    r.fail("glyph-file:" + what, "step %d %s -> %s" % (step, short(repr(name), 60), detail))
+                if fn != ref:
+                    r.fail("differs-from-convention", "step %d %s: %s vs %s" % (step, short(repr(name), 60), short(repr(fn), 90), short(repr(ref), 90)))
+                n_clash += clashed
+                model[name] = fn
+            elif op == "rewrite":
+                if name not in model:
+                    continue
+                o = _Obj()
+                o.width = 1000 + step
+                ok, _ = r.call("writeGlyph-again", gs.writeGlyph, name, o, None)
+                if ok and gs.contents.get(name) != model[name]:
+                    r.fail("file-name-not-stable", "step %d %s: %r -> %r" % (step, short(repr(name), 60), model[name], gs.contents.get(name)))
+            elif op == "delete":
+                if name not in model:
+                    continue
+                ok, _ = r.call("deleteGlyph", gs.deleteGlyph, name)
+                if ok:
+                    del model[name]
+                    n_del += 1
+            elif op == "contents":
+                r.call("writeContents", gs.writeContents)
+            elif op == "reopen":
+                r.call("writeContents", gs.writeContents)
+                r.call("close", gs.close)
+                ok, gs = r.call("GlyphSet-reopen", GlyphSet, d, expectContentsFile=True)
+                if not ok:
+                    return
+                n_reopen += 1
+            if dict(gs.contents) != model:
+                r.fail("contents-vs-model", "after step %d (%s): %s vs %s" % (step, op, short(repr(dict(gs.contents)), 150), short(repr(model), 150)))
+                return
+            disk = sorted(f for f in os.listdir(d) if f != "contents.plist")
+            if disk != sorted(model.values()):
+                r.fail("files-on-disk", "after step %d (%s): %s vs %s" % (step, op, short(repr(disk), 150), short(repr(sorted(model.values())), 150)))
+                return
+        r.call("writeContents", gs.writeContents)
+        r.call("close", gs.close)
+        if not r.failed:
+            with open(os.path.join(d, "contents.plist"), "rb") as f:
+                if S.load(f) != model:
+                    r.fail("contents.plist", "differs from the model")
+            ok, gs = r.call("GlyphSet-final", GlyphSet, d, expectContentsFile=True)
+            if ok:
+                for name in model:
+                    o = _Obj()
+                    ok, _ = r.call("readGlyph", gs.readGlyph, name, o)
+                    if ok and getattr(o, "name", None) != name:
+                        r.fail("glyph-name-in-file", "%s vs %s" % (short(repr(getattr(o, "name", None)), 60), short(repr(name), 60)))
+                r.call("close", gs.close)
+    r.acc.case(
+        ("gsops", case),
+        nontrivial=bool(n_clash or n_del),
+        labels=["gsops:with-clash"] * bool(n_clash) + ["gsops:with-delete"] * bool(n_del) + ["gsops:with-reopen"] * bool(n_reopen) + ["gsops:all"],
+    )
+
+
+# ---------------------------------------------------------------------------
+# jobs
+
+CHECKS = {
+    "ds": check_ds,
+    "glif": check_glif,
+    "glyphset": check_glyphset,
+    "ufo": check_ufo,
+    "upconv": check_upconv,
+    "plist": check_plist,
+    "names": check_names,
+    "gsops": check_gsops,
+    "axismap": check_axismap,
+}
+
+# kind -> (number of quick jobs, cases per quick job, thorough jobs, cases per thorough job)
+PLAN = {
+    "ds": (4, 350, 16, 2200),
+    "glif": (3, 450, 12, 2800),
+    "glyphset": (2, 150, 8, 900),
+    "ufo": (3, 100, 12, 600),
+    "upconv": (1, 200, 4, 1200),
+    "plist": (2, 700, 8, 4500),
+    "names": (2, 300, 8, 1900),
+    "gsops": (1, 120, 6, 500),
+    "axismap": (1, 600, 4, 3700),
+    "axismap-discrete": (1, 100, 1, 2000),
+}
+
+
+def _strategy(kind):
+    from vf import gen_sources as G
+
+    return {
+        "ds": G.designspace_doc,
+        "glif": G.glif_case,
+        "glyphset": G.glyphset_case,
+        "ufo": G.ufo_case,
+        "upconv": G.upconvert_case,
+        "plist": G.plist_case,
+        "names": G.name_sequence,
+        "gsops": G.glyphset_ops,
+        "axismap": G.axis_map_case,
+        "axismap-discrete": G.discrete_map_case,
+    }[kind]()
+
+
+def jobs(tier, seed):
+    J = []
+    # longest first
+    for kind in ("ds", "glif", "ufo", "plist", "glyphset", "names", "upconv", "gsops", "axismap", "axismap-discrete"):
+        qj, qn, tj, tn = PLAN[kind]
+        nj, n = (tj, tn) if tier == "thorough" else (qj, qn)
+        for i in range(nj):
+            J.append(dict(kind=kind, name="%s-%d" % (kind, i), n=n, seed=subseed(seed, kind, i)))
+    J.append(dict(kind="fixed", name="fixed-examples"))
+    return J
+
+
+def run_case(acc, kind, case):
+    k = "axismap" if kind == "axismap-discrete" else kind
+    CHECKS[k](case, R(acc, k, case))
+
+
+# hand-written cases that must always be exercised (documentation examples and boundaries)
+def _fixed_cases():
+    out = []
+    doc_names = ["a", "A", "AE", "Ae", "ae", "aE", "a.alt", "A.alt", "A.Alt", "A.aLt", "A.alT", "T_H", "T_h", "t_h", "F_F_I", "f_f_i", "Aacute_V.swash", ".notdef", "con", "CON", "con.alt", "alt.con"]
+    for v in _VARIANTS:
+        out.append(("names", {"names": doc_names, "variant": v}))
+        out.append(("names", {"names": ["a" * 300, "a" * 299 + "b", "A" * 128, "a_" * 128, "a" * 255, "a" * 240 + "000000000000001", "a" * 300], "variant": v}))
+    out.append(("axismap", {"map": [[1.0, 10.0], [400.0, 66.0], [1000.0, 990.0]], "vs": [1.0, 200.0, 400.0, 650.0, 1000.0], "discrete": False}))
+    out.append(("axismap", {"map": [[0, 0], [1, -11]], "vs": [0, 1], "discrete": True}))
+    out.append(("plist", {"tree": {"a": [1, 1.0, True, "1", b"1", {"$date": [2020, 2, 29, 23, 59, 59, 0]}], "": {}, " ": []}, "sort_keys": True, "pretty": True, "mode": "builtin", "indent": 1}))
+    out.append(("plist", {"tree": [2**64 - 1, -(2**63), {"$data": b"\x00" * 100}], "sort_keys": False, "pretty": False, "mode": "nobuiltin", "indent": 0}))
+    return out
+
+
+def run_job(job):
+    acc = Acc()
+    kind = job["kind"]
+    if kind == "fixed":
+        for k, case in _fixed_cases():
+            run_case(acc, k, case)
+        from fontTools.misc import plistlib as P
+
+        for bad in (2**64, -(2**63) - 1):
+            try:
+                P.dumps({"v": bad})
+                acc.fail("plist", "out-of-range-integer-accepted", repr(bad), {"kind": "plist-range", "case": bad})
+            except OverflowError:
+                pass
+            except Exception as e:
+                acc.fail_exc("plist", e, {"kind": "plist-range", "case": bad})
+        acc.case(("plist-range",), nontrivial=True, labels=["plist:integer-range-rejected"])
+        return acc
+    if kind not in PLAN:
+        raise HarnessError("unknown job kind %r" % kind)
+
+    def body(case, acc):
+        run_case(acc, kind, case)
+
+    hyp_collect(acc, _strategy(kind), body, job["n"], job["seed"])
+    return acc
+
+
+def replay(case):
+    acc = Acc()
+    if case["kind"] == "plist-range":
+        from fontTools.misc import plistlib as P
+
+        try:
+            P.dumps({"v": case["case"]})
+            acc.fail("plist", "out-of-range-integer-accepted", repr(case["case"]), case)
+        except OverflowError:
+            pass
+        return acc.failures
+    run_case(acc, case["kind"], case["case"])
+    return acc.failures
+
+
+_MUST_OCCUR = [
+    "ds:format=4.1", "ds:format=5.0", "ds:format=5.1", "ds:format-upgraded", "ds:map", "ds:discrete-axis", "ds:axis-labels", "ds:axisMappings", "ds:locationLabels",
+    "ds:rules", "ds:sources", "ds:instances", "ds:variableFonts", "ds:lib", "ds:instance-glyphs", "ds:anisotropic", "ds:via=file", "ds:via=string",
+    "glif:format=1", "glif:format=2", "glif:pt:move", "glif:pt:line", "glif:pt:curve", "glif:pt:qcurve", "glif:pt:offcurve", "glif:smooth", "glif:identifier",
+    "glif:component-transform", "glif:anchors", "glif:guidelines", "glif:image", "glif:note", "glif:lib", "glif:wraparound-offcurves", "glif:open-contour",
+    "glyphset:ufo3", "glyphset:ufo2", "ufo:structure=package", "ufo:structure=zip", "ufo:structure=fs", "ufo:info", "ufo:kerning", "ufo:groups", "ufo:layers>1",
+    "ufo:data", "ufo:images", "ufo:features", "upconv:ufo1", "upconv:ufo2", "upconv:info-value-converted", "upconv:groups-renamed",
+    "plist:bool", "plist:bigint", "plist:float", "plist:bytes", "plist:$date", "plist:$data", "plist:empty", "plist:awkward-str", "plist:mode=nobuiltin",
+    "names:with-clash", "names:with-truncation", "names:clash-after-truncation", "names:with-reserved", "names:ufo", "names:misc", "names:ufo-glif", "names:ufo-layer",
+    "gsops:with-clash", "gsops:with-delete", "gsops:with-reopen", "axismap:increasing", "axismap:decreasing", "axismap:discrete",
+]
+
+
+def finish(total, tier, seed):
+    missing = [l for l in _MUST_OCCUR if total.labels.get(l, 0) == 0]
+    if missing:
+        raise HarnessError("generator classes with zero hits: %s" % ", ".join(missing))
